@@ -167,22 +167,22 @@ def respond (s : State) (r : ReqId) (prov : Addr) (code : Nat) (out : OutKind) :
       if prov ≠ q.prov then fail s .invalidResponse
       else if r ∉ s.activeI then fail s .invalidResponse
       else
-        let settled : Except Out (State × List Effect) :=
+        let settled : Except Res (State × List Effect) :=
           if out = .malformed then
             match slash s r x0.svc q.prov with
-            | .bankErr => .error (panicOut s "slash failed")
-            | .overflow => .error (panicOut s "Int overflow")
+            | .bankErr => .error (.panic "slash failed")
+            | .overflow => .error (.panic "Int overflow")
             | .done s1 e1 =>
               match bankSend s1.bank s1.cfg.escrow x0.cons q.fee with
-              | none => .error (panicOut s "refund failed")
+              | none => .error (.panic "refund failed")
               | some bank' => .ok ({ s1 with bank := bank' },
                   e1 ++ (if q.fee = 0 then [] else [.transfer s1.cfg.escrow x0.cons q.fee]))
           else
             match addEarned s prov q.fee with
-            | none => .error (fail s .insufficientFunds)
+            | none => .error (.err .insufficientFunds)
             | some r => .ok r
         match settled with
-        | .error o => o
+        | .error r => (s, r, [])
         | .ok (s1, e1) =>
           let s2 := { s1 with resps := Map.set s1.resps r { prov := prov, cons := x0.cons, code := code, out := out } }
           let s3 := delActive s2 x0.svc prov q.expH r
@@ -303,18 +303,18 @@ def withdraw (s : State) (owner prov : Addr) : Out :=
   if prov ≠ "" ∧ Map.get s.owner prov ≠ some owner then fail s .notAuthorized
   else
     let O := balOf s.ownerEarned owner
-    let r : Except Out (State × Nat) :=
+    let r : Except Res (State × Nat) :=
       if prov ≠ "" then
         let E := balOf s.earned prov
         let s1 := { s with earned := Map.del s.earned prov }
         if E = O then .ok ({ s1 with ownerEarned := Map.del s1.ownerEarned owner }, E)
-        else if O < E then .error (panicOut s "negative coin amount")
+        else if O < E then .error (.panic "negative coin amount")
         else .ok ({ s1 with ownerEarned := Map.set s1.ownerEarned owner (O - E) }, E)
       else
         let s1 := { s with earned := (providersOf s owner).foldl (fun m p => Map.del m p) s.earned }
         .ok ({ s1 with ownerEarned := Map.del s1.ownerEarned owner }, O)
     match r with
-    | .error o => o
+    | .error r => (s, r, [])
     | .ok (s1, amt) =>
       let dst := (Map.get s.withdraw owner).getD owner
       if dst = s.cfg.escrow ∨ dst = s.cfg.deposit then fail s .unauthorized
